@@ -11,7 +11,14 @@ import (
 // garbage that merely has not been collected yet, and it also sees
 // allocations whose pages are never touched.
 
-type allocKey [32]uintptr
+// The runtime keeps one profile bucket per (call stack, allocation size): the key must hold
+// both, or two buckets of one stack are diffed against each other and produce phantom deltas.
+type allocKey struct {
+	stack [32]uintptr
+	size  int64
+}
+
+var DebugAlloc = false
 
 type AllocWatch struct {
 	prev map[allocKey][2]int64 // AllocBytes, AllocObjects
@@ -55,7 +62,10 @@ func (w *AllocWatch) Delta() []BigAlloc {
 	var out []BigAlloc
 	for i := range recs {
 		r := &recs[i]
-		k := allocKey(r.Stack0)
+		if r.AllocObjects <= 0 {
+			continue
+		}
+		k := allocKey{r.Stack0, r.AllocBytes / r.AllocObjects}
 		p := w.prev[k]
 		db, do := r.AllocBytes-p[0], r.AllocObjects-p[1]
 		w.prev[k] = [2]int64{r.AllocBytes, r.AllocObjects}
@@ -69,6 +79,16 @@ func (w *AllocWatch) Delta() []BigAlloc {
 		}
 		if site == "" {
 			continue
+		}
+		if DebugAlloc && db/do > 16<<20 {
+			fr := runtime.CallersFrames(r.Stack())
+			for {
+				f, more := fr.Next()
+				println("  ALLOC", db, do, f.Function, f.Line)
+				if !more {
+					break
+				}
+			}
 		}
 		out = append(out, BigAlloc{Site: site, AvgSize: db / do, Objects: do, Bytes: db})
 	}
